@@ -368,4 +368,4 @@ ASSUMPTIONS = ['harness built with debug assertions and overflow checks (profile
 
 
 # pinned theorems that instantiate this package's abstract-field theorems at the executed ZpOps dictionary
-EXTRA_PROP_FILES = ['Bridge', 'Bridge2', 'NumTh']
+EXTRA_PROP_FILES = ['Bridge', 'Bridge2', 'NumTh', 'C11Cubic']
